@@ -227,6 +227,9 @@ def one_run(sc, placements, sub_id):
     for t in sim.final_threads:
         if t[1] == "worker" and (not t[2] or t[3] is not None):
             v("worker_died", tag, "worker %s alive=%s exc=%s" % (t[0], t[2], t[3]))
+        elif t[2] and str(t[4] or "").startswith("sock."):
+            # the server's sockets are non-blocking: a thread asleep inside send()/recv() is a thread a client took away
+            v("thread_stuck", "blocked_in_" + str(t[4]), "thread %s is asleep inside a socket call (%s) at the end of the run" % (t[0], t[4]))
     # 3. teardown by the I/O thread only
     for cid, s in sim.conns.items():
         for seq, who in s.close_log:
